@@ -504,10 +504,14 @@ def months_inc(start_date, months, eomonth=False):
     if start_date < 0:
         return NUM_ERROR
     y, m, d = date_from_int(start_date)
-    if eomonth:
-        return date(y, m + months + 1, 1) - 1
-    else:
-        return date(y, m + months, d)
+    # whole months only, carried into years; the day is kept but never
+    # runs past the end of the target month (EDATE) / is its last day (EOMONTH)
+    y, m = divmod(y * 12 + m - 1 + int(months), 12)
+    m += 1
+    if not (1900 <= y <= 9999):
+        return NUM_ERROR
+    last_day = max_days_in_month(m, y)
+    return date(y, m, last_day if eomonth else min(d, last_day))
 
 
 @time_value_wrapper
